@@ -502,7 +502,9 @@ static int do_foreach(int t, int rev, int stop_at, int stop_val)
     }
     return w.n;
 }
-static int stop_value(int s) { return (s & 1) ? -(7 + s) : (s % 5 == 0 ? INT_MIN + s : 7 + s); }
+/* every callback index is paired, over the states of a run, with every special value (-1, 1, +-2, even values, values that
+ * vanish in narrow fields, the ends of int): the salt moves on with every traversal of the case */
+static int stop_value(int s) { return vrt_stop_value((unsigned)s * 31u + 7u * vrt_case_tick()); }
 
 /* ---- structural walker over the header-visible links ---- */
 struct wk { int t, count, maxd, rules, bst; uint32_t stamp; };
